@@ -222,6 +222,23 @@ impl Node {
         Ok(out)
     }
 
+    /// `deldatastore` with lightningd semantics (1200 unknown key, 1201 generation mismatch).
+    pub fn deldatastore(&mut self, params: &Value) -> RpcResult {
+        let key = key_of(params)?;
+        let e = match self.ds.get(&key) {
+            Some(e) => e.clone(),
+            None => return Err(RpcErr::new(1200, "Key does not exist")),
+        };
+        if let Some(g) = params.get("generation").and_then(|v| v.as_u64()) {
+            if g != e.generation {
+                return Err(RpcErr::new(1201, "generation is different"));
+            }
+        }
+        self.ds.remove(&key);
+        self.ds_mutations += 1;
+        Ok(entry_json(&key, &e))
+    }
+
     pub fn listdatastore(&self, params: &Value) -> RpcResult {
         let key = match params.get("key") {
             None | Some(Value::Null) => vec![],
